@@ -57,11 +57,13 @@ def py_repr(v) -> str:
 def objdef_repr(d) -> str:
     name = d['class'].split('.')[-1]
     kw = dict(d.get('kwargs', {}))
-    if name == 'LabObj':
+    if name in ('LabObj', 'LabObjSub'):
         args = {'a': kw['a']}
         if 'b' in kw and kw['b'] != 3:
             args['b'] = kw['b']
-        return 'LabObj(' + ', '.join(f'{k}={py_repr(v)}' for k, v in sorted(args.items())) + ')'
+        if name == 'LabObjSub':
+            args['limit'] = kw.get('limit', 10)     # constructor arguments added by a subclass are part of its representation
+        return name + '(' + ', '.join(f'{k}={py_repr(v)}' for k, v in sorted(args.items())) + ')'
     if name == 'LabObjPlain':
         return f'LabObjPlain(x={py_repr(kw["x"])})'
     if name == 'LabChainObj':
